@@ -101,6 +101,8 @@ def run(ctx):
     ctx.min_instances('C17.R7', 2)
     r8(ctx)
     ctx.min_instances('C17.R8', 8)
+    r9(ctx)
+    ctx.min_instances('C17.R9', 4)
     ctx.min_instances('C17.R6', 10)
     ctx.min_instances('C17.R1', 24)
     ctx.min_instances('C17.R3', 5)
@@ -952,3 +954,26 @@ def r8(ctx):
                     'written in that unit system stops with a traceback'
                     % (nm, dim, dim), note=how,
                     key='%s | %s unguarded' % (fi.full, nm))
+
+
+def r9(ctx):
+    """Converters walk collections of the input (assemblies, tables, axial
+    regions, positions) and convert each member inside the loop.  A loop
+    variable or loop-local value read after its loop holds only the last
+    member: the store then converts one member and leaves the others in the
+    user's unit (rule shared with C20.R5)."""
+    from .c20 import stale_loop_reads
+    m = ctx.repo.mod('read_input')
+    for q, fi in sorted(m.funcs.items()):
+        if not fi.name.startswith('convert_'):
+            continue
+        hits = stale_loop_reads(fi.node)
+        for lp, x in hits:
+            ctx.violation('C17.R9', fi, x,
+                          '`%s`, bound in the loop at line %d, is read after '
+                          'the loop has ended: only the last member of the '
+                          'collection is converted, the others keep the '
+                          'user\'s unit' % (x.id, lp.lineno),
+                          key='%s | stale loop value %s' % (fi.full, x.id))
+        if not hits:
+            ctx.ok('C17.R9', fi, None, 'no loop value read after its loop')
